@@ -11,21 +11,49 @@
     calls.  For rfind_skip "latest position" is the dual of find_skip under reversal:
     the occurrence that ENDS latest (ties: first listed), see C18_rfind_dual.
 
-    NOT YET PROVED (true of the model as far as the correspondence run shows, omitted
-    for time):
-    - find_skip / rfind_skip / trim_* restated as chains of Parser::find_skip /
-      rfind_skip / trim_*_matches calls (the pieces are here: C18_find_* and
-      C18_rfind_* give the selected remainder in terms of occurrences, C18_no_rounding_*
-      give the parser; what is missing is only the definition of those Parser methods
-      in list vocabulary, which is C13/C14's, and the gluing);
+    (4) the same on the executable model of the real methods, Model.Parser's [Parser.step]
+    (C13's record; names of that module are written qualified): [abs] is the macro
+    model's view of such a parser (remainder, start_offset, direction); the one field it
+    forgets (yielded_last_split) is not touched by any call involved (C18_*_keeps_flag),
+    so the equalities are equalities of whole parsers (C18_abs_injective).  [fits] = the
+    u32 start_offset does not wrap on this parser (C13's hypothesis; only the forward
+    forms move start_offset: [fits_for]).
+    Which call wins, read off the expansion (macros/parser_method.rs):
+    - strip_*: if-else chain, the first listed alternative whose call returns Ok;
+    - find_skip: the scan loop tries every alternative at offset 0, then 1, ..: of the
+      alternatives whose Parser::find_skip (called on the SAME parser) returns Ok, the
+      one whose match STARTS earliest, ties: first listed.  NOT "longest remainder":
+      on "abc" with "abc" | "b" the macro takes "abc" (remainder "") although "b" leaves
+      "c" (C18_find_not_longest_remainder);
+    - rfind_skip: dually the match that ENDS latest, ties: first listed;
+    - trim_*: the loop { strip the first listed alternative whose strip_prefix
+      (strip_suffix) returns Ok; stop if none or if that one is empty }, then the
+      direction is set (C18_trim_eq_loop); with ONE alternative that is
+      Parser::trim_start_matches (trim_end_matches) itself (C18_trim_single_eq_method).
+      With several alternatives it is NOT a fixed chain of trim_*_matches calls (one
+      pass over the alternatives is not enough: "a" | "b" on "ba.."), hence the loop.
+    - the write-back [p = p.skip(n)] / [p.skip_back(n)] every form ends with: the macro
+      model's own copies of these two methods are Model.Parser's on byte-valued
+      remainders, rounding included (C18_skip_is_parser_skip, .._skip_back_..,
+      C18_write_back_is_parser_call).
+
+    NOT YET PROVED:
     - a single theorem over the token TREE (string | raw | concat!) — the three cases
       are separate theorems (C18_literal_bytes_eq_rustc, C18_raw_literal_eq,
       C18_concat_eq);
     - stringify!(..) patterns are not modelled (outside the property's statement);
-    - the u32 wrap of start_offset is not modelled (C13's). *)
+    - the chain theorems carry C13's no-wrap hypothesis [fits] for the forward forms
+      (the macro model's start_offset is a plain Z); what a wrapping start_offset does
+      is C13's finding, not restated here;
+    - where Model.Parser's skip_back reports the [pos -= 1] underflow (PPanic: the
+      remainder starts with a continuation byte and the cut falls inside that run;
+      impossible for a &str, C01) the macro model's skip_back_m has no panic value and
+      stops at 0; C18_skip_back_is_parser_skip_back therefore speaks of the Ok case. *)
 From KV Require Import Base.Prelude Model.Utf8 Model.Literal Model.ParserMethod
   Spec.Search Spec.Literal Spec.ParserMethod Spec.ParserChain
-  Proofs.LiteralProofs Proofs.ParserMethodProofs Proofs.ParserChainProofs.
+  Proofs.LiteralProofs Proofs.ParserMethodProofs Proofs.ParserChainProofs
+  Proofs.ParserMethodChainProofs.
+From KV Require Model.Parser.
 (* ---------------------------------------------------------------- literal bytes *)
 
 (** literal_bytes_eq_rustc: for every string-literal token that is well formed by the
@@ -187,6 +215,194 @@ Theorem C18_literal_is_shaped : forall src v,
   rustc_string src v -> exists bytes, parse_literal (utf8 src) = Some bytes /\ str_shape bytes.
 Proof. exact literal_shaped. Qed.
 
+(* ---------------------------------------------------------------- the chains of Model.Parser calls *)
+Local Open Scope Z_scope.
+
+(** strip_eq_chain on the executable methods: the if-else chain of
+    [Parser.step P (OStripPrefix a)] ([OStripSuffix]) calls; [strip_ok s P a] = the call
+    returns Ok *)
+Theorem C18_strip_eq_step_chain : forall s brs P i q,
+  fits_for s P -> str_shape (Parser.p_str P) -> arms_shaped (arms_of brs) ->
+  (strip_macro s brs (abs P) = (Some i, q) <->
+   exists j a Q, first_listed (strip_ok s P) (arms_of brs) j i a /\
+                 Parser.step P (strip_op s a) = Parser.POk Parser.VNone Q /\ q = abs Q).
+Proof. exact strip_macro_step_some. Qed.
+Theorem C18_strip_default_step_chain : forall s brs P q,
+  fits_for s P ->
+  (strip_macro s brs (abs P) = (None, q) <-> q = abs P /\ none_listed (strip_ok s P) (arms_of brs)).
+Proof. exact strip_macro_step_none. Qed.
+(** the list-vocabulary [P_strip] used above IS the executable method *)
+Theorem C18_P_strip_is_step : forall s P a q, fits_for s P ->
+  (P_strip (end_of s) (abs P) a q <->
+   exists Q, Parser.step P (strip_op s a) = Parser.POk Parser.VNone Q /\ q = abs Q).
+Proof. exact P_strip_step. Qed.
+
+(** find_eq_chain.  [find_winner P arms j i a Q]: arm j = (i, a), [Parser::find_skip(a)]
+    on P returns [Ok Q], and every other alternative whose call on P returns [Ok Q']
+    matched no earlier ([match_start Q' a'] = start_offset of Q' minus the literal's
+    length), strictly later if listed before.  The branch that runs is the winner's and
+    the parser becomes what the winner's call returned ... *)
+Theorem C18_find_eq_chain : forall brs P i q,
+  fits P -> str_shape (Parser.p_str P) -> arms_shaped (arms_of brs) ->
+  (find_macro AtStart brs (abs P) = (Some i, q) <->
+   exists j a Q, find_winner P (arms_of brs) j i a Q /\ q = abs Q).
+Proof. exact find_macro_some. Qed.
+(** ... and the default branch runs, parser unchanged, exactly when every call fails *)
+Theorem C18_find_default_chain : forall brs P q,
+  fits P -> str_shape (Parser.p_str P) -> arms_shaped (arms_of brs) ->
+  (find_macro AtStart brs (abs P) = (None, q) <->
+   q = abs P /\ forall i a, In (i, a) (arms_of brs) ->
+                  exists e, Parser.step P (Parser.OFindSkip a) = Parser.PErr e).
+Proof. exact find_macro_none. Qed.
+(** the winner is unique: the chain determines branch and parser *)
+Theorem C18_find_winner_unique : forall P arms j i a Q j2 i2 a2 Q2,
+  find_winner P arms j i a Q -> find_winner P arms j2 i2 a2 Q2 ->
+  j = j2 /\ i = i2 /\ a = a2 /\ Q = Q2.
+Proof. exact find_winner_unique. Qed.
+(** the same as an equation between two programs: [find_chain] calls
+    [Parser.step P (OFindSkip a)] for every alternative on the same parser and keeps the
+    result with the smallest [match_start], the earlier listed on ties *)
+Theorem C18_find_eq_chain_program : forall brs P,
+  fits P -> str_shape (Parser.p_str P) -> arms_shaped (arms_of brs) ->
+  find_macro AtStart brs (abs P) =
+  match find_chain P (arms_of brs) with
+  | Some (i, _, Q) => (Some i, abs Q)
+  | None => (None, abs P)
+  end.
+Proof. exact find_macro_eq_chain. Qed.
+(** it is the earliest START that wins, not the longest remainder *)
+Theorem C18_find_not_longest_remainder :
+  let P := Parser.parser_new [97; 98; 99] in
+  find_macro AtStart [[[97; 98; 99]]; [[98]]] (abs P) = (Some 0%nat, mkP [] 3 FromStart) /\
+  Parser.step P (Parser.OFindSkip [98]) =
+    Parser.POk Parser.VNone (Parser.mk_parser Parser.FromStart false 2 [99]).
+Proof. exact find_not_longest_remainder. Qed.
+
+(** rfind_eq_chain: the same with [Parser::rfind_skip]; the winner's match ENDS latest
+    ([match_end Q a] = end offset of Q plus the literal's length), ties: first listed.
+    No hypothesis on the remainder or on start_offset (nothing is added to it). *)
+Theorem C18_rfind_eq_chain : forall brs P i q,
+  arms_shaped (arms_of brs) ->
+  (find_macro AtEnd brs (abs P) = (Some i, q) <->
+   exists j a Q, rfind_winner P (arms_of brs) j i a Q /\ q = abs Q).
+Proof. exact rfind_macro_some. Qed.
+Theorem C18_rfind_default_chain : forall brs P q,
+  arms_shaped (arms_of brs) ->
+  (find_macro AtEnd brs (abs P) = (None, q) <->
+   q = abs P /\ forall i a, In (i, a) (arms_of brs) ->
+                  exists e, Parser.step P (Parser.ORFindSkip a) = Parser.PErr e).
+Proof. exact rfind_macro_none. Qed.
+Theorem C18_rfind_winner_unique : forall P arms j i a Q j2 i2 a2 Q2,
+  rfind_winner P arms j i a Q -> rfind_winner P arms j2 i2 a2 Q2 ->
+  j = j2 /\ i = i2 /\ a = a2 /\ Q = Q2.
+Proof. exact rfind_winner_unique. Qed.
+Theorem C18_rfind_eq_chain_program : forall brs P,
+  arms_shaped (arms_of brs) ->
+  find_macro AtEnd brs (abs P) =
+  match rfind_chain P (arms_of brs) with
+  | Some (i, _, Q) => (Some i, abs Q)
+  | None => (None, abs P)
+  end.
+Proof. exact rfind_macro_eq_chain. Qed.
+(** [find_chain] / [rfind_chain] compute the winner, or [None] when every call fails *)
+Theorem C18_chain_program_some : forall op score P arms i a Q,
+  best_chain op score P arms = Some (i, a, Q) -> exists j, chain_winner op score P arms j i a Q.
+Proof. exact best_chain_some. Qed.
+Theorem C18_chain_program_none : forall op score P arms,
+  best_chain op score P arms = None ->
+  forall i a Q, In (i, a) arms -> Parser.step P (op a) <> Parser.POk Parser.VNone Q.
+Proof. exact best_chain_none. Qed.
+Theorem C18_rfind_winner_is_chain_winner : forall P arms j i a Q,
+  chain_winner Parser.ORFindSkip (fun Q a => - match_end Q a) P arms j i a Q <-> rfind_winner P arms j i a Q.
+Proof. exact rfind_winner_generic. Qed.
+
+(** trim_eq_loop: the trim forms are the loop [trim_chain] of strip_prefix (strip_suffix)
+    calls (first listed alternative that returns Ok; stop when none does or when it is
+    the empty literal; then set the direction); the loop always ends *)
+Theorem C18_trim_eq_loop : forall s alts P q,
+  fits_for s P -> str_shape (Parser.p_str P) -> arms_shaped (arms_of [alts]) ->
+  (trim_macro s alts (abs P) = Some q <->
+   exists Q, trim_chain s (arms_of [alts]) P Q /\ q = abs Q).
+Proof. exact trim_macro_chain. Qed.
+Theorem C18_trim_loop_ends : forall s arms P, fits_for s P -> exists Q, trim_chain s arms P Q.
+Proof. exact trim_chain_total. Qed.
+(** trim_single_eq_method: with one alternative the form is the method itself *)
+Theorem C18_trim_single_eq_method : forall s a P,
+  fits_for s P -> str_shape (Parser.p_str P) -> str_shape a ->
+  exists Q, Parser.step P (trim_op s a) = Parser.POk Parser.VNone Q /\
+            trim_macro s [a] (abs P) = Some (abs Q).
+Proof. exact trim_macro_single. Qed.
+
+(** the field [abs] forgets is not touched by any call of the chains *)
+Theorem C18_find_keeps_flag : forall P a Q,
+  Parser.step P (Parser.OFindSkip a) = Parser.POk Parser.VNone Q -> Parser.p_yls Q = Parser.p_yls P.
+Proof. exact find_keeps_flag. Qed.
+Theorem C18_rfind_keeps_flag : forall P a Q,
+  Parser.step P (Parser.ORFindSkip a) = Parser.POk Parser.VNone Q -> Parser.p_yls Q = Parser.p_yls P.
+Proof. exact rfind_keeps_flag. Qed.
+Theorem C18_strip_keeps_flag : forall s P a Q,
+  Parser.step P (strip_op s a) = Parser.POk Parser.VNone Q -> Parser.p_yls Q = Parser.p_yls P.
+Proof. exact strip_keeps_flag. Qed.
+Theorem C18_trim_keeps_flag : forall s P a Q,
+  Parser.step P (trim_op s a) = Parser.POk Parser.VNone Q -> Parser.p_yls Q = Parser.p_yls P.
+Proof. exact trim_keeps_flag. Qed.
+Theorem C18_trim_loop_keeps_flag : forall s arms P Q,
+  trim_chain s arms P Q -> Parser.p_yls Q = Parser.p_yls P.
+Proof. exact trim_chain_keeps_flag. Qed.
+Theorem C18_abs_injective : forall P Q, abs P = abs Q -> Parser.p_yls P = Parser.p_yls Q -> P = Q.
+Proof. exact abs_inj. Qed.
+(** the hypotheses are satisfiable: a fresh parser over UTF-8 text shorter than 4 GiB *)
+Theorem C18_fits_example : forall s, zlen s < 4294967296 -> fits (Parser.parser_new s).
+Proof. exact fits_new. Qed.
+
+(** the write-back of every form is the Parser call the expansion makes: the macro
+    model's skip_m / skip_back_m are [Parser.step P (OSkip n)] / [(OSkipBack n)], for
+    every n (rounding to a char boundary included), on remainders made of bytes *)
+Theorem C18_skip_is_parser_skip : forall P n, fits P -> Forall is_byte (Parser.p_str P) ->
+  exists Q, Parser.step P (Parser.OSkip n) = Parser.POk Parser.VNone Q /\
+            abs Q = skip_m (abs P) n /\ Parser.p_yls Q = Parser.p_yls P.
+Proof. exact skip_m_is_step. Qed.
+Theorem C18_skip_back_is_parser_skip_back : forall P n Q, Forall is_byte (Parser.p_str P) ->
+  Parser.step P (Parser.OSkipBack n) = Parser.POk Parser.VNone Q ->
+  abs Q = skip_back_m (abs P) n /\ Parser.p_yls Q = Parser.p_yls P.
+Proof. exact skip_back_m_is_step. Qed.
+Theorem C18_write_back_is_parser_call : forall s P r Q,
+  fits_for s P -> Forall is_byte (Parser.p_str P) ->
+  Parser.step P (match s with
+                 | AtStart => Parser.OSkip (zlen (Parser.p_str P) - zlen r)
+                 | AtEnd => Parser.OSkipBack (zlen (Parser.p_str P) - zlen r)
+                 end) = Parser.POk Parser.VNone Q ->
+  abs Q = set_rem s (abs P) r.
+Proof. exact set_rem_is_step. Qed.
+
+Print Assumptions C18_skip_is_parser_skip.
+Print Assumptions C18_skip_back_is_parser_skip_back.
+Print Assumptions C18_write_back_is_parser_call.
+Print Assumptions C18_strip_eq_step_chain.
+Print Assumptions C18_strip_default_step_chain.
+Print Assumptions C18_P_strip_is_step.
+Print Assumptions C18_find_eq_chain.
+Print Assumptions C18_find_default_chain.
+Print Assumptions C18_find_winner_unique.
+Print Assumptions C18_find_eq_chain_program.
+Print Assumptions C18_find_not_longest_remainder.
+Print Assumptions C18_rfind_eq_chain.
+Print Assumptions C18_rfind_default_chain.
+Print Assumptions C18_rfind_winner_unique.
+Print Assumptions C18_rfind_eq_chain_program.
+Print Assumptions C18_chain_program_some.
+Print Assumptions C18_chain_program_none.
+Print Assumptions C18_rfind_winner_is_chain_winner.
+Print Assumptions C18_trim_eq_loop.
+Print Assumptions C18_trim_loop_ends.
+Print Assumptions C18_trim_single_eq_method.
+Print Assumptions C18_find_keeps_flag.
+Print Assumptions C18_rfind_keeps_flag.
+Print Assumptions C18_strip_keeps_flag.
+Print Assumptions C18_trim_keeps_flag.
+Print Assumptions C18_trim_loop_keeps_flag.
+Print Assumptions C18_abs_injective.
+Print Assumptions C18_fits_example.
 Print Assumptions C18_strip_eq_chain.
 Print Assumptions C18_strip_default_chain.
 Print Assumptions C18_no_rounding_strip.
